@@ -18,6 +18,7 @@ import (
 	"bytes"
 	"errors"
 	"fmt"
+	"math/big"
 	"strconv"
 	"strings"
 
@@ -41,8 +42,14 @@ func NewMycatPartitionModShard(shardNum int) *MycatPartitionModShard {
 
 // FindForKey return result of calculated key
 func (m *MycatPartitionModShard) FindForKey(key interface{}) (int, error) {
-	h := hack.Abs(NumValue(key))
-	return int(h % int64(m.ShardNum)), nil
+	// same as Mycat: new BigInteger(columnValue).abs().mod(count); int64 arithmetic is wrong
+	// for -2^63, for unsigned keys >= 2^63 and refuses longer decimal strings.
+	n, ok := new(big.Int).SetString(GetString(key), 10)
+	if !ok {
+		panic(NewKeyError("invalid num format %v", key))
+	}
+	n.Mod(n.Abs(n), big.NewInt(int64(m.ShardNum)))
+	return int(n.Int64()), nil
 }
 
 const (
